@@ -230,6 +230,7 @@ func (s *State) doCall(call *ssa.Call, cc *ssa.CallCommon) ([]*State, bool) {
 		}
 	}
 	if sp := c.SS.specFor(fn); sp != nil && (sp.HasBody || sp.Trusted) && !sp.Inline {
+		s.calledClosure = closure
 		if top := s.topFrame(); top.Spec != nil && !strings.HasSuffix(sp.File, ".spec") {
 			for _, k := range top.Spec.Forbids {
 				has := false
@@ -397,10 +398,26 @@ func (s *State) contractCall(call *ssa.Call, sp *FuncSpec, fn *ssa.Function, sig
 	}
 	fnValue := s.dynFnValue
 	s.dynFnValue = ""
+	calledClosure := s.calledClosure
+	s.calledClosure = nil
 	mkEnv := func(heap Heap, cells map[*Cell]Term, ghost map[string]TV) *SpecEnv {
 		env := &SpecEnv{S: s, C: c, Heap: heap, Cells: cells, Vars: map[string]TV{}, Pkg: pkg, Ghost: ghost}
 		if fnValue != "" {
 			env.Vars["fn"] = TV{T: fnValue, Sort: "Int"}
+		}
+		if calledClosure != nil && fn != nil {
+			// the contract of a closure may name the variables it has captured
+			for k, fv := range fn.FreeVars {
+				if k < len(calledClosure.Bindings) {
+					if l, ok := calledClosure.Bindings[k].(*Loc); ok {
+						if pt, ok := fv.Type().Underlying().(*types.Pointer); ok {
+							s.touch(l)
+							t, _ := s.loadIn(heap, cells, l)
+							env.Vars[fv.Name()] = TV{T: t, Loc: l, Ty: pt.Elem(), Sort: c.sortOf(pt.Elem())}
+						}
+					}
+				}
+			}
 		}
 		i := 0
 		if sig.Recv() != nil || invoke {
@@ -709,6 +726,13 @@ func (s *State) havocLocation(env *SpecEnv, m string, sp *FuncSpec) {
 			if g, ok := s.Ghost[id.Name]; ok {
 				n := s.freshConst("g_"+id.Name, g.Sort)
 				s.Ghost[id.Name] = TV{T: n, Sort: g.Sort, Ty: g.Ty}
+				return
+			}
+			// a variable the called closure has captured
+			// (a closure's contract names the variables it captures by the names they have in the enclosing function,
+			// which is where the closure is called from)
+			if v, ok := env.Vars[id.Name]; ok && v.Loc != nil {
+				s.store(v.Loc, s.freshOf("hv_"+id.Name, c.pathType(v.Loc.Ty, v.Loc.Path)))
 				return
 			}
 		}
